@@ -192,6 +192,10 @@ func TestC01(t *testing.T) {
 	rapid.Check(t, func(rt *rapid.T) {
 		cfg := rtGenConfig()
 		applyRuntimeExclusions(&cfg)
+		// this check has no NDJSON leg: arrays of records / optionals / dates, which an open finding of
+		// the Python NDJSON writer keeps out of the other run-time checks, stay in
+		delete(cfg.Excl, "array-of-struct")
+		cfg.StructArrayPct = 30
 		c := genRTCase(rt, &cfg, core.Budget(3, 6), value.GenOpts{Budget: 60, Big: true}, 8)
 		rec.Eval()
 		recordRTEvidence(rec, c)
